@@ -512,6 +512,11 @@ func RunCase(r *prng.R, p *Profile, id string) *sexp.S {
 				}
 			}
 		}
+		if p.Untracked && i > 0 && r.Intn(12) == 0 {
+			// a node with nothing in it: entering it ends the dialogue
+			prog.Nodes = append(prog.Nodes, n)
+			continue
+		}
 		n.Body = append(n.Body, &ast.Stmt{Kind: "line", Line: &ast.Line{Els: []ast.El{{Text: "enter " + t}}}})
 		if p.LongRuns {
 			n.Body = append(n.Body, g.body(0, 3+r.Intn(8))...)
